@@ -123,7 +123,11 @@ fn write_merged_to_disk(
   path_map: HashMap<String, PathBuf>,
 ) -> Result<()> {
   for (id, snaps) in merged {
-    let path = &path_map[&id];
+    // a snapshot whose id has no test case any more belongs to no test directory:
+    // leave its file alone instead of panicking on the lookup
+    let Some(path) = path_map.get(&id) else {
+      continue;
+    };
     if !path.exists() {
       std::fs::create_dir(path)?;
     }
